@@ -76,15 +76,15 @@ static void smallPairs(Env& env, const std::string& stage, int n, const dom::Alp
 // renamed twins of pairs of TRIMMED automata over an alphabet with unary AND binary symbols (reaches the upward/downward antichain code with several
 // macro-states per state): all state bijections of both operands x 2 embeddings x ALL symbol-id permutations x {ascending, descending} insertion order,
 // the four no-simulation variants
-static void smallPairsTrim(Env& env, const std::string& stage, int n, const dom::Alphabet& sig, int ka, int kb) {
+static void smallPairsTrim(Env& env, const std::string& stage, int n, const dom::Alphabet& sig, int ka, int kb, bool all8 = false) {
   auto DA = std::make_shared<dom::TADomain>(n, sig, ka, false, true); DA->keepTrimmedOnly(); auto DB = std::make_shared<dom::TADomain>(n, sig, kb, false, true); DB->keepTrimmedOnly(); int ns = (int)sig.ranks.size();
   env.noteNum(stage + ".trimmed_automata_A", DA->size()); env.noteNum(stage + ".trimmed_automata_B", DB->size());
   std::vector<std::vector<size_t>> perms; { std::vector<size_t> p(n); for (int i = 0; i < n; i++) p[i] = i; do perms.push_back(p); while (std::next_permutation(p.begin(), p.end())); }
   std::vector<std::vector<int>> sperms; { std::vector<int> p(ns); for (int i = 0; i < ns; i++) p[i] = i; do sperms.push_back(p); while (std::next_permutation(p.begin(), p.end())); }
   uint64_t NB = DB->size(); ParallelOpts o; o.stage = stage; o.size = (uint64_t)DA->size() * NB; o.block = 16; o.caseTimeout = 60;
   o.describe = [DA, DB, NB](uint64_t idx) { return "A: " + DA->str(DA->get(idx / NB)) + " | B: " + DA->str(DB->get(idx % NB)); };
-  o.run = [DA, DB, NB, perms, sperms, n](uint64_t idx, Ctx& c) { ref::TA A = DA->get(idx / NB), B = DB->get(idx % NB); c.evals(); uint64_t w = A.rules.size() + B.rules.size(); if (A != B) c.nontrivial(); bool expect = ref::included(A, B); c.count(expect ? "expect_included" : "expect_not_included");
-    static const int NV[5] = {0, 2, 3, 4, 6};   // the four no-simulation variants + non-recursive downward WITH simulation (its per-position antichain is observed through a guarded hook)
+  o.run = [DA, DB, NB, perms, sperms, n, all8](uint64_t idx, Ctx& c) { ref::TA A = DA->get(idx / NB), B = DB->get(idx % NB); c.evals(); uint64_t w = A.rules.size() + B.rules.size(); if (A != B) c.nontrivial(); bool expect = ref::included(A, B); c.count(expect ? "expect_included" : "expect_not_included");
+    static const int NV5[5] = {0, 2, 3, 4, 6}; static const int NV8[8] = {0, 1, 2, 3, 4, 5, 6, 7}; std::vector<int> NV(all8 ? NV8 : NV5, all8 ? NV8 + 8 : NV5 + 5);   // the four no-simulation variants + non-recursive downward WITH simulation (its per-position antichain is observed through a guarded hook)
     for (auto& pa : perms) for (auto& pb : perms) for (int emb = 0; emb < 2; emb++) for (auto& sp : sperms) for (int od = 0; od < 2; od++) {
       std::vector<int> oa(A.rules.size()), ob(B.rules.size()); for (size_t i = 0; i < oa.size(); i++) oa[i] = od ? (int)(oa.size() - 1 - i) : (int)i; for (size_t i = 0; i < ob.size(); i++) ob[i] = od ? (int)(ob.size() - 1 - i) : (int)i;
       ExplicitTreeAut a = buildVariant(A, [&](size_t q) { return emb ? 7 * pa[q] + 3 : pa[q]; }, sp, oa), b = buildVariant(B, [&](size_t q) { return emb ? 5 * pb[q] + 1 : pb[q]; }, sp, ob);
@@ -173,6 +173,8 @@ static Register s5("c19.small.pairs.trim.n2s3.a2b3", "C19", "pairs of TRIMMED au
 static Register s6("c19.small.pairs.trim.n2s3.a3b3", "C19", "pairs of TRIMMED automata of TA(2,{a:0,b:0,f:1,g:2},<=3 rules) under all renamings", [](Env& e) { smallPairsTrim(e, "c19.small.pairs.trim.n2s3.a3b3", 2, dom::Sigma3(), 3, 3); });
 static Register s7("c19.small.pairs.trim.n2s2.a3b3", "C19", "pairs of TRIMMED automata of TA(2,{a:0,b:0,g:2},<=3 rules) under all state bijections x embeddings x all symbol-id permutations x 2 insertion orders, 4 no-sim variants + down_nonrec_sim", [](Env& e) { smallPairsTrim(e, "c19.small.pairs.trim.n2s2.a3b3", 2, dom::Sigma2(), 3, 3); });
 static Register s8("c19.small.pairs.trim.n2s2.a3b5", "C19", "pairs of TRIMMED automata of TA(2,{a:0,b:0,g:2}): A <=3 x B <=5 rules under all renamings", [](Env& e) { smallPairsTrim(e, "c19.small.pairs.trim.n2s2.a3b5", 2, dom::Sigma2(), 3, 5); });
+static Register s9("c19.small.pairs.trim.n3abf.a3b2", "C19", "pairs of TRIMMED automata of TA(3,{a:0,b:0,f:1}): A <=3 x B <=2 rules under all 6x6 state bijections x embeddings x all 6 symbol-id permutations x 2 insertion orders, ALL 8 variants", [](Env& e) { smallPairsTrim(e, "c19.small.pairs.trim.n3abf.a3b2", 3, dom::SigmaABF(), 3, 2, true); });
+static Register s10("c19.small.pairs.trim.n3abf.a4b2", "C19", "pairs of TRIMMED automata of TA(3,{a:0,b:0,f:1}): A <=4 x B <=2 rules under all renamings, ALL 8 variants", [](Env& e) { smallPairsTrim(e, "c19.small.pairs.trim.n3abf.a4b2", 3, dom::SigmaABF(), 4, 2, true); });
 static Register c1("c19.corpus.small.single", "C19", "every file of automata/small_timbuk: equivalent to its reduced / trimmed / reloaded / renamed forms", [](Env& e) { corpusSingle(e, "c19.corpus.small.single", "automata/small_timbuk", 1 << 20, 20); });
 static Register c2("c19.corpus.small.pairs", "C19", "all ordered pairs of automata/small_timbuk: 8 variants agree, language laws", [](Env& e) { corpusPairs(e, "c19.corpus.small.pairs", "automata/small_timbuk", 4096, 20, ""); });
 static Register c3("c19.corpus.smaller.single", "C19", "tests/aut_timbuk_smaller (20 automata, 159-1402 rules): equivalence with transformed forms", [](Env& e) { corpusSingle(e, "c19.corpus.smaller.single", "tests/aut_timbuk_smaller", 1 << 22, 60); });
